@@ -154,6 +154,20 @@ def recursive_runs(ucg, base, rep):
         for f in order:
             v = "PASS" if ("%s - PASS" % f) in out else ("FAIL" if ("%s - FAIL" % f) in out else "?")
             verdicts.setdefault(f, {})[" ".join(order)] = v
+    # the importing file's own assertions count whatever stands before them: true / import / false must FAIL and log both
+    with open(os.path.join(d, "three_test.ucg"), "w") as f:
+        f.write('assert {ok = true, desc = "T-before"};\nlet l = import "./lib.ucg";\nassert {ok = false, desc = "T-after"};\n'
+                'assert {ok = l.v == 1, desc = "T-last"};\n')
+    p = subprocess.run([ucg, "test", "three_test.ucg"], cwd=d, env={"HOME": os.path.join(d, ".home"), "PATH": "/usr/bin:/bin"},
+                       capture_output=True, timeout=60)
+    n += 1
+    out = p.stdout.decode("utf-8", "replace")
+    logged = [m for m in ("T-before", "T-after", "T-last") if out.count(m) == 1]
+    if p.returncode != 1 or "three_test.ucg - FAIL" not in out or logged != ["T-before", "T-after", "T-last"] or "lib" in \
+            [ln.split(":")[-1].strip() for ln in out.split("\n") if " OK: " in ln or "NOT OK: " in ln]:
+        rep.disagree({"leg": "order", "file": "three_test.ucg", "exit": p.returncode, "stdout": out[-800:],
+                      "expected": "FAIL, exit 1, its three assertions logged once each, none of lib.ucg's"},
+                     key="assertions-after-an-import")
     for f, vs in verdicts.items():
         if len(set(vs.values())) != 1:
             rep.disagree({"leg": "order", "file": f, "verdict_by_invocation": vs,
